@@ -302,18 +302,27 @@ fn args_ops_all() -> bool {
 }
 
 fn collect_ops(m: &MatchResult, out: &mut Vec<(MatchResult, MatchResult)>, limit: usize) {
-    for w in m.child_matches.windows(2) {
-        if out.len() >= limit {
-            return;
+    // all sibling pairs (bounded), those carrying inserts of their own first: they exercise the
+    // flattening of `insert_segments` in append/wrap
+    fn walk(m: &MatchResult, all: &mut Vec<(MatchResult, MatchResult)>) {
+        for w in m.child_matches.windows(2) {
+            if all.len() >= 400 {
+                return;
+            }
+            all.push((w[0].clone(), w[1].clone()));
         }
-        out.push((w[0].clone(), w[1].clone()));
-    }
-    for c in &m.child_matches {
-        if out.len() >= limit {
-            return;
+        for c in &m.child_matches {
+            walk(c, all);
         }
-        collect_ops(c, out, limit);
     }
+    let mut all = vec![];
+    walk(m, &mut all);
+    all.sort_by_key(|(a, b)| {
+        let small = mr_size(a) + mr_size(b) <= 60;
+        let ins = !a.insert_segments.is_empty() || !b.insert_segments.is_empty();
+        (!(small && ins), !small)
+    });
+    out.extend(all.into_iter().take(limit));
 }
 
 pub struct Parsed {
@@ -473,10 +482,10 @@ fn run_one(cx: &mut Ctx, it: &Item, out: &mut Buf) {
     }
 
     // ---- append / wrap on operand pairs taken from the recorded match
-    let do_ops = args_ops_all() || short_hash(&it.sql).as_bytes()[11] % 4 == 0;
+    let do_ops = args_ops_all() || short_hash(&it.sql).as_bytes()[11] % 6 == 0;
     if let (Some(m), true) = (root_mr, do_ops) {
         let mut ops = vec![];
-        collect_ops(m, &mut ops, 3);
+        collect_ops(m, &mut ops, 2);
         let n = tokens.len() as u32;
         for (k, (a, b)) in ops.iter().enumerate() {
             if mr_size(a) + mr_size(b) > 60 {
@@ -497,6 +506,33 @@ fn run_one(cx: &mut Ctx, it: &Item, out: &mut Buf) {
                 }
                 if let Ok(r) = catch(|| e.clone().verif_append(b)) {
                     out.case("append", it.cls, false, g_tuple(&[g_mr(&e), g_mr(b)]), g_mr(&r), json!({"input": input, "op": "empty-append", "pair": k}));
+                }
+            }
+            // the same operands without their name: un-named matches with inserts and children are what
+            // NodeMatcher wraps and what Sequence appends (flattening path of both constructors)
+            // (inserts are added synthetically at the span ends: when the engine's own wrap/append is
+            // broken, recorded matches may carry none)
+            let strip = |m: &MatchResult| {
+                let mut u = MatchResult { matched: None, ..m.clone() };
+                u.insert_segments.insert(0, (m.span.start, SyntaxKind::Indent));
+                u.insert_segments.push((m.span.end, SyntaxKind::Dedent));
+                u
+            };
+            let (ua, ub) = (strip(a), strip(b));
+            if mr_size(&ua) + mr_size(&ub) <= 60 {
+                for (x, y, tag) in [(&ua, &ub, "append-unnamed"), (&ua, b, "append-unnamed-named"), (a, &ub, "append-named-unnamed")] {
+                    if let Ok(r) = catch(|| x.clone().verif_append(y)) {
+                        let nontriv = has_match(x) && has_match(y) && (!x.insert_segments.is_empty() || !y.insert_segments.is_empty());
+                        out.case("append", it.cls, nontriv, g_tuple(&[g_mr(x), g_mr(y)]), g_mr(&r), json!({"input": input, "op": tag, "pair": k}));
+                    }
+                }
+                for x in [&ua, &ub] {
+                    if let Ok(r) = catch(|| x.clone().verif_wrap(Matched::SyntaxKind(SyntaxKind::Expression))) {
+                        if wf(n, x).is_ok() {
+                            out.hyp("wrap_preserves_WF_on_real_operands", "blocking", wf(n, &r).is_ok(), json!({"input": input, "a": g_mr(x)}));
+                        }
+                        out.case("wrap", it.cls, has_match(x) && !x.insert_segments.is_empty(), g_tuple(&[g_mr(x), g_n(kind_n(SyntaxKind::Expression))]), g_mr(&r), json!({"input": input, "op": "wrap-unnamed", "pair": k}));
+                    }
                 }
             }
             let kind = SyntaxKind::Expression;
